@@ -169,15 +169,15 @@ Proof.
 Qed.
 
 Lemma Inv_waiters_subset w c s ws :
-  Inv w c s -> (forall e, In e ws -> In e (waiters s)) -> forall nx, Inv w c (mk (now s) (items s) ws (adm s) nx).
+  Inv w c s -> (forall e, In e ws -> In e (waiters s)) -> forall nx ins, Inv w c (mk (now s) (items s) ws (adm s) nx ins).
 Proof.
-  intros [Ha Hn Hs Hw Hsl] Hsub nx. constructor; cbn [now items waiters adm]; try assumption.
+  intros [Ha Hn Hs Hw Hsl] Hsub nx ins. constructor; cbn [now items waiters adm]; try assumption.
   intros i T Hin. apply Hsl with i. now apply Hsub.
 Qed.
 
 Lemma Inv_step w c s a : 1 <= c -> Inv w c s -> Inv w c (step w c s a).
 Proof.
-  intros Hc HI. destruct a as [ | i | dt]; cbn [step].
+  intros Hc HI. destruct a as [ | i | dt | i k | i]; cbn [step].
   - apply Inv_attempt; [exact Hc|]. apply (Inv_waiters_subset w c s (waiters s) HI). auto.
   - destruct (lookup i (waiters s)) as [t|]; [|exact HI]. destruct (t <=? now s); [|exact HI].
     apply Inv_attempt; [exact Hc|]. apply (Inv_waiters_subset w c s _ HI). apply remove_id_incl.
@@ -187,6 +187,12 @@ Proof.
     + exact Hs.
     + exact Hw.
     + intros i T Hin HT. apply Hsl with i; [exact Hin | lia].
+  - (* a body is left, in whatever manner: __aexit__ touches nothing *)
+    destruct (existsb (Nat.eqb i) (inside s)); [|exact HI]. unfold aexit.
+    apply (Inv_waiters_subset w c s (waiters s) HI). auto.
+  - (* a sleeper is cancelled *)
+    destruct (lookup i (waiters s)) as [t|]; [|exact HI].
+    apply (Inv_waiters_subset w c s _ HI). apply remove_id_incl.
 Qed.
 
 Lemma Inv_run w c t0 acts : 1 <= c -> Inv w c (run w c t0 acts).
@@ -250,9 +256,50 @@ Proof.
         specialize (Hle a (or_intror Hin)). cbn beta in Hle. unfold in_window. lia.
 Qed.
 
+(** * Leaving the body (normally, by an exception, by cancellation, by a timeout) has no effect on the limiter *)
+Lemma core_attempt w c id s s' : core s = core s' -> core (attempt w c id s) = core (attempt w c id s').
+Proof.
+  destruct s as [n it ws ad nx ins], s' as [n' it' ws' ad' nx' ins']. unfold core. cbn [now items waiters adm next].
+  intros H. inversion H; subst. unfold attempt. cbn [now items waiters adm next inside].
+  destruct (Z.of_nat (length (evict (n' - w) it')) <? c); reflexivity.
+Qed.
+
+Lemma core_step w c s s' a : is_leave a = false -> core s = core s' -> core (step w c s a) = core (step w c s' a).
+Proof.
+  intros Ha H. destruct s as [n it ws ad nx ins], s' as [n' it' ws' ad' nx' ins'].
+  unfold core in H. cbn [now items waiters adm next] in H. inversion H; subst. clear H.
+  destruct a as [ | i | dt | i k | i]; [| | | discriminate |]; cbn [step now items waiters adm next inside].
+  - apply core_attempt. reflexivity.
+  - destruct (lookup i ws') as [t|]; [|reflexivity]. destruct (t <=? n'); [|reflexivity].
+    apply core_attempt. reflexivity.
+  - reflexivity.
+  - destruct (lookup i ws') as [t|]; reflexivity.
+Qed.
+
+Lemma core_leave w c s i k : core (step w c s (Leave i k)) = core s.
+Proof. cbn [step]. destruct (existsb (Nat.eqb i) (inside s)); reflexivity. Qed.
+
+Lemma core_strip w c acts : forall s s', core s = core s' ->
+  core (fold_left (step w c) acts s) = core (fold_left (step w c) (strip_leaves acts) s').
+Proof.
+  induction acts as [|a r IH]; intros s s' H; cbn [fold_left strip_leaves filter]; [exact H|].
+  destruct (is_leave a) eqn:Ea; cbn [negb].
+  - destruct a; try discriminate. apply IH. now rewrite core_leave.
+  - cbn [fold_left]. apply IH. now apply core_step.
+Qed.
+
+Lemma body_exits_irrelevant w c t0 acts : core (run w c t0 acts) = core (run w c t0 (strip_leaves acts)).
+Proof. unfold run. now apply core_strip. Qed.
+
 (** Hypotheses are satisfiable; the statements are not vacuous. *)
 Example ex_run :
   let s := run 4 2 0 [Enter; Enter; Enter; Advance 3; Wake 2; Advance 1; Wake 2; Enter; Enter] in
   adm s = [(0%nat, 0); (1%nat, 0); (2%nat, 4); (3%nat, 4)] /\ waiters s = [(4%nat, 8)] /\ items s = [4; 4] /\
   trailing_count 4 s = 2.
+Proof. vm_compute. repeat split. Qed.
+
+Example ex_run_exits :   (* both slots taken at 0, both bodies cancelled / timed out at 1: the third entrant still waits until 4 *)
+  let s := run 4 2 0 [Enter; Enter; Advance 1; Leave 0 Cancel; Leave 1 Timeout; Advance 1; Enter; Enter; Abandon 2; Enter;
+                      Advance 2; Wake 2; Wake 3; Wake 4; Leave 3 Raise; Leave 4 Normal] in
+  adm s = [(0%nat, 0); (1%nat, 0); (3%nat, 4); (4%nat, 4)] /\ waiters s = [] /\ items s = [4; 4] /\ inside s = [].
 Proof. vm_compute. repeat split. Qed.
